@@ -45,6 +45,7 @@ type Solver struct {
 	tblDef  map[string]bool
 	ufDef   map[string]bool
 	timeout time.Duration
+	cut     map[int]bool // nodes whose definitions are dropped (treated as free variables)
 	Stats   *SolverStats
 	log     io.Writer
 	dead    bool
@@ -314,7 +315,7 @@ func (s *Solver) expr(t *Term, sb *strings.Builder) string {
 // 0.1 s), so every shared node is a declared constant with a defining equality.
 func (s *Solver) define(roots []*Term) {
 	var sb strings.Builder
-	for _, t := range s.ts.Cone(roots...) {
+	for _, t := range s.ts.ConeCut(s.cut, roots...) {
 		if s.defined[t.id] {
 			continue
 		}
@@ -332,6 +333,10 @@ func (s *Solver) define(roots []*Term) {
 					fmt.Fprintf(&sb, "(assert (bvule %s %s))\n", smtVarName(t.name), bvLit(t.w, new(big.Int).SetUint64(t.hi)))
 				}
 			}
+			continue
+		}
+		if s.cut != nil && s.cut[t.id] {
+			fmt.Fprintf(&sb, "(declare-const t%d %s)\n", t.id, sortName(t.w))
 			continue
 		}
 		var pre strings.Builder
@@ -430,7 +435,7 @@ func (s *Solver) Check(assertions []*Term, wantModel bool) (Result, map[string]*
 	}
 	var model map[string]*big.Int
 	if res == Sat && wantModel {
-		vars := s.ts.Vars(as...)
+		vars := s.ts.VarsCut(s.cut, as...)
 		model = map[string]*big.Int{}
 		// fetch in chunks
 		for i := 0; i < len(vars); i += 200 {
